@@ -369,8 +369,11 @@ where
             .save_welcome(welcome)
             .map_err(|e| Error::Welcome(e.to_string()))?;
 
-        // Update the group to inactive
-        if let Some(mut group) = self.get_group(&mls_group_id.into())? {
+        // Update the group to inactive (only a group that is still pending: declining an invitation must
+        // never disable a group the user has already joined)
+        if let Some(mut group) = self.get_group(&mls_group_id.into())?
+            && group.state == group_types::GroupState::Pending
+        {
             group.state = group_types::GroupState::Inactive;
             self.storage()
                 .save_group(group)
